@@ -260,7 +260,8 @@ void HttpMessage::readHeaders()
 	{
 		if (isspace(line[0])) // multiline
 		{
-			setHeader(headerName, headerValue + line.trimmed());
+			headerValue += line.trimmed(); // a value may continue over several lines
+			setHeader(headerName, headerValue);
 			continue;
 		}
 		line.trim();
